@@ -1,3 +1,6 @@
 """all C contract modules loaded into the shared registry"""
 from .base import R          # noqa: F401
 from . import ints           # noqa: F401
+from . import cast           # noqa: F401
+from . import strings        # noqa: F401
+from . import lookup         # noqa: F401
